@@ -437,3 +437,16 @@ Proof.
   split; [exact H1|]. split; [exact H2|]. split; [exact H3|]. split; [vm_compute; reflexivity|]. vm_compute. lia.
 Qed.
 Print Assumptions C04_sharded_lgraph_nonvacuous.
+
+(* the guard [Forall NoDup orders] cannot be dropped (for the MODEL: the orders are oracle inputs): with one key of the
+   second shard listed twice the model builds a shard table with a duplicated entry and returns a graph that is not the
+   assembly *)
+Example C04_sharded_order_guard_needed :
+  exists orders bs gs g, map (@length _) orders = map (@length _) ex4_orders /\
+    sharded 64 4 2 None false 2 0 2 ex4_reads orders = Some (bs, gs, g) /\ ~ assembly_of 4 false 2 0 ex4_reads g.
+Proof.
+  exists [[[0;1;1;2]; [0;1;2;2]; [2;0;1;1]; [2;2;0;1]]; [[0;3;2;2]; [0;3;2;2]]; [[3;1;1;0]]]%N. do 3 eexists.
+  split; [reflexivity|]. split; [vm_compute; reflexivity|].
+  intro H. apply chk_assembly_complete in H. vm_compute in H. discriminate H.
+Qed.
+Print Assumptions C04_sharded_order_guard_needed.
